@@ -59,9 +59,17 @@ func fill(r *core.Rand, x *xspec) {
 		x.Status = core.Pick(r, []int{204, 301, 304, 404, 500, 503})
 	case "chunked":
 		x.Size = core.Pick(r, []int{3, 1000, 50000})
-	case "connect-ok", "connect-viaok", "upgrade":
+	case "connect-ok", "connect-viaok":
 		x.Size = core.Pick(r, []int{0, 10, 5000, 100000})
 		x.End = core.Pick(r, []string{"close", "fin", "rst"})
+	case "upgrade":
+		x.Size = core.Pick(r, []int{0, 10, 5000, 100000})
+		x.End = core.Pick(r, []string{"close", "fin", "rst", "origin"})
+		if r.Chance(60) {
+			// the request also says something about the connection: the close option next to Upgrade (token
+			// order / spelling / two field lines), HTTP/1.0, keep-alive (the shapes of the repaired F52)
+			x.Req = upgradeReqs[r.Range(1, len(upgradeReqs)-1)].name
+		}
 	case "tt-tls", "sk-ok":
 		x.Size = core.Pick(r, []int{0, 10, 5000})
 		x.End = core.Pick(r, []string{"close", "fin", "rst"})
@@ -119,7 +127,10 @@ func fill(r *core.Rand, x *xspec) {
 // kinds, the transport's own CONNECT for 'GET https://' and another method, the same inside an intercepted
 // session — and the server mode, so that every shape runs under the TCP server and, but for the intercepted
 // session, under the http.Handler) | "f42" (an origin answering 101 without a protocol switch, the path of the
-// repaired F42: a regression target) puts one such exchange into the round.
+// repaired F42: a regression target) | "f52/<n>" (an upgrade request that also asks to close the connection —
+// the close option in every spelling, HTTP/1.0 —, tunnel traffic and teardown by either side, the path of the
+// repaired F52: a regression target; n picks the request form and the server mode) puts one such exchange into
+// the round.
 func genRound(r *core.Rand, defect string) *roundCase {
 	rc := &roundCase{Kind: "round", Handler: r.Chance(20), Insecure: r.Chance(35)}
 	f40 := -1
@@ -127,6 +138,12 @@ func genRound(r *core.Rand, defect string) *roundCase {
 		f40, _ = strconv.Atoi(rest)
 		rc.Handler = (f40/len(f40Shapes))%2 == 1
 		defect = "f40"
+	}
+	f52 := -1
+	if rest, ok := strings.CutPrefix(defect, "f52/"); ok {
+		f52, _ = strconv.Atoi(rest)
+		rc.Handler = f52%2 == 1
+		defect = "f52"
 	}
 	nc := r.Range(1, 8)
 	for i := 0; i < nc; i++ {
@@ -185,6 +202,33 @@ func genRound(r *core.Rand, defect string) *roundCase {
 		}
 		pos = r.Intn(pos + 1)
 		c.Exchanges = append(c.Exchanges[:pos], append([]xspec{x}, c.Exchanges[pos:]...)...)
+	case "f52":
+		var closing []upgradeReq
+		for _, v := range upgradeReqs {
+			if v.closes {
+				closing = append(closing, v)
+			}
+		}
+		n := 1
+		if r.Chance(30) {
+			n = 2
+		}
+		for k := 0; k < n; k++ {
+			x := xspec{Kind: "upgrade", Req: closing[(f52/2+k)%len(closing)].name, Size: core.Pick(r, []int{0, 10, 5000, 100000}),
+				End: core.Pick(r, []string{"close", "fin", "rst", "origin"})}
+			c := &rc.Conns[r.Intn(len(rc.Conns))]
+			// anywhere before a terminal exchange: the ordinary exchanges before it run on the connection that is then
+			// switched, those after it on a new one
+			pos := len(c.Exchanges)
+			for j, e := range c.Exchanges {
+				if terminal(e.Kind) {
+					pos = j
+					break
+				}
+			}
+			pos = r.Intn(pos + 1)
+			c.Exchanges = append(c.Exchanges[:pos], append([]xspec{x}, c.Exchanges[pos:]...)...)
+		}
 	case "f42":
 		c := &rc.Conns[r.Intn(len(rc.Conns))]
 		pos := len(c.Exchanges)
@@ -238,7 +282,7 @@ func Run(ctx *core.Ctx) {
 		"upstream proxy (ok, dial failure, rejection incl. 101 — by the http and by the https upstream proxy, every 10th round, under the TCP server and the http.Handler), CONNECTs that fail AFTER the proxy dialled a connection (X-Martian-Terminate-Tls to a plain-text target / through an http upstream proxy / through SOCKS5 / with the default TLS client, which cannot terminate at all; " +
 		"the CONNECT to an http or https upstream proxy torn by FIN or RST, garbled, cut, never answered (ConnectTimeout), its header function failing, rejected; TLS to an https upstream proxy failing after the TCP connect; SOCKS5 negotiation refused, torn, cut, never answered, not SOCKS at all; " +
 		"a ConnectFunc returning a connection together with an error; TLS to the origin failing below the transport, also inside an intercepted session; a failed MITM handshake) with their control cases (terminate-TLS tunnel with --insecure, tunnels through the https proxy / SOCKS5 / the ConnectFunc), " +
-		"whose peers wait for the proxy's end of every connection, requests whose CONNECT the upstream proxy rejects inside the proxy's transport (GET https:// and inside an intercepted session; with 101 as well), MITM hand-off with requests inside, 101 upgrade tunnels, a 101 that is no protocol switch (answered 502), client aborts while uploading / " +
+		"whose peers wait for the proxy's end of every connection, requests whose CONNECT the upstream proxy rejects inside the proxy's transport (GET https:// and inside an intercepted session; with 101 as well), MITM hand-off with requests inside, 101 upgrade tunnels — the request plain, or (three in five, and in every 10th round, under the TCP server and the http.Handler) carrying the close option next to Upgrade in every order / spelling / on two field lines, sent as HTTP/1.0, or with keep-alive (the shapes of the repaired F52), with tunnel traffic and the tunnel ended by the client (close / FIN / RST) or by the origin —, a 101 that is no protocol switch (answered 502), client aborts while uploading / " +
 		"downloading / before reading the response (RST and FIN), EOF and garbage before a request, keep-alive reuse; tunnel ends by close/FIN/RST; " +
 		"plus cases on the exported Listener/Dialer: 1-6 accepted and 0-4 dialled connections with byte transfers, each closed by 1-4 goroutines at once " +
 		"(some twice), refused dials, Accept on a closed listener; " +
@@ -337,6 +381,8 @@ func Run(ctx *core.Ctx) {
 			defect = fmt.Sprintf("f40/%d", i/10)
 		case i%50 == 27:
 			defect = "f42"
+		case i%10 == 2:
+			defect = fmt.Sprintf("f52/%d", i/10)
 		}
 		rc := genRound(r, defect)
 		if i < 2 {
